@@ -9,7 +9,7 @@
 """
 import json, os, random
 from vlib import *  # noqa
-import docs
+import docs, project
 
 LEVEL = "model_checking"
 MC = """CONSTANTS Docs = {1, 2, 3}
@@ -101,6 +101,10 @@ def to_trace_events(evs, opts_by_engine=None):
         elif e["e"] == "eng":
             if e["op"] == "lang": continue            # (the key of the conversions that follow carries the language)
             out.append(dict(e="eng", op=e["op"], src=e.get("src", "")))
+        elif e["e"] == "import":
+            # an outline turned back into text: the same outline gives the same text through every entry point, called once or again on the same object
+            out.append(dict(e="conv", fam="imp_" + e["fam"], src=e["src"], key="import|" + e["src"], digest=project.fnv(project.lat1(e["text"])) if not e["null"] else "", det=True,
+                            null=e["null"], srcsame=e["srcsame"], inplace=False, wrote=False, needfile=False, rng=0, rand=0, len=e.get("len", 0)))
         elif e["e"] == "reset":
             out.append(dict(e="reset"))
     return out
@@ -230,6 +234,25 @@ def run(tier, seed):
     p2, trace2 = run_session(chk, exe, cpool, crefs, cscripts2, "corpus")
     problems += p2
     nconv += len([e for e in trace2 if e["e"] == "conv"])
+    # 3b. outlines imported back into text (OPML, ITMZ): string, DString and engine entry points, once and again on the same DString / engine
+    osrc = ["notes", "tables", "meta_de", "toc"]
+    r0 = run_harness(exe, [["seg\toutl", "wantout\t1"] + [line("src", on_, sx(dpool[on_])) for on_ in osrc] + [conv_line("s_data", on_, (f, docs.STD, "en")) for on_ in osrc for f in ("opml", "itmz")]])[0]
+    outl = {}
+    for ev in r0["events"]:
+        if ev.get("e") == "conv" and not ev["null"]: outl[(ev["src"], docs.FMTNAME[ev["fmt"]])] = project.lat1(ev["out"])
+    iseg = ["seg\timport"]
+    for (on_, f), ob in sorted(outl.items()):
+        iseg.append(line("src", "o_%s_%s" % (on_, f), sx(ob)))
+        for fam in ("s", "d", "e", "dd", "ee", "de", "ed", "sds") if f == "opml" else ("d", "e", "dd", "ee", "de", "ed"):      # (a ZIP archive cannot be handed over as a C string)
+            iseg.append(line("opml2text", fam, "o_%s_%s" % (on_, f), f))
+    r1 = run_harness(exe, [iseg])[0]
+    trace3 = [dict(e="reset")] + to_trace_events(r1["events"])
+    if r1["status"] != "ok": problems.append(("crash", iseg, r1))
+    acc3, rej3, st3, _ = tlc.validate_trace("SessionTrace", os.path.join(VERIF, "spec", "SessionTrace.cfg"), trace3)
+    chk.add("trace_events_validated", acc3); chk.add("trace_states", st3); chk.cov["imports"] = len([e for e in trace3 if e["e"] == "conv"])
+    if chk.cov["imports"] < 12 * len(osrc): raise FrameworkError("outline import family did not run (%d events)" % chk.cov["imports"])
+    for seg, idx in rej3: problems.append(("rejected", seg, idx))
+    nconv += chk.cov["imports"]
     chk.cov["evaluations"] = nconv
     chk.cov["distinct_nontrivial"] = len({(e["key"], e["fam"]) for e in trace + trace2 if e["e"] == "conv"})
     chk.cov["histories"] = dict(bfs=len(hists), simulated=len(hists_sim), corpus=len(cscripts2), bfs_length=n)
